@@ -209,5 +209,21 @@ func (p *HandlerChangeDest) resendRelevantNotifications(ctx context.Context, new
 	}
 	p.proxy.log.Debugf("notify sent")
 
+	// 5. what the pool changed after announcing that job (while the destination was not relayed
+	// to the miner) applies to the jobs that follow
+	if xn, xnSize := newDest.GetExtraNonce(); xn != job.GetExtraNonce1() || xnSize != job.GetExtraNonce2Size() {
+		err = p.proxy.source.Write(ctx, m.NewMiningSetExtranonce(xn, xnSize))
+		if err != nil {
+			return lib.WrapError(ErrChangeDest, err)
+		}
+		p.proxy.source.SetExtraNonce(xn, xnSize)
+	}
+	if diff := newDest.GetDiff(); diff != job.GetDiff() {
+		err = p.proxy.source.Write(ctx, m.NewMiningSetDifficulty(diff))
+		if err != nil {
+			return lib.WrapError(ErrChangeDest, err)
+		}
+	}
+
 	return nil
 }
